@@ -52,6 +52,8 @@ Section system.
   Context (init : St) (apply : St → Op → St) (merge : St → St → St).
   Context (gen : St → N → Cmd → option Op).
   Context (adm : adm_t Op).
+  (** whether the type has a state merge at all ([List] has none) *)
+  Context (mergeable : Prop).
 
   Inductive reach (H : list (oprec Op)) : St → gset nat → Prop :=
   | reach_init : reach H init ∅
@@ -59,7 +61,7 @@ Section system.
       reach H s K → H !! i = Some o → adm H K i →
       reach H (apply s (op_val o)) (K ∪ {[i]})
   | reach_merge s1 K1 s2 K2 :
-      reach H s1 K1 → reach H s2 K2 → reach H (merge s1 s2) (K1 ∪ K2).
+      mergeable → reach H s1 K1 → reach H s2 K2 → reach H (merge s1 s2) (K1 ∪ K2).
 
   Inductive hist_ok : list (oprec Op) → Prop :=
   | hist_nil : hist_ok []
@@ -83,13 +85,13 @@ Section system.
   Hypothesis valid_union : ∀ H K1 K2, valid H K1 → valid H K2 → valid H (K1 ∪ K2).
   Hypothesis L1 : ∀ H K i o, wfH H → valid H K → adm H K i → H !! i = Some o →
     eqv (apply (spec H K) (op_val o)) (spec H (K ∪ {[i]})).
-  Hypothesis L2 : ∀ H K1 K2, wfH H → valid H K1 → valid H K2 →
+  Hypothesis L2 : ∀ H K1 K2, mergeable → wfH H → valid H K1 → valid H K2 →
     eqv (merge (spec H K1) (spec H K2)) (spec H (K1 ∪ K2)).
 
   (** * every reachable state is the specification of its knowledge *)
   Theorem reach_spec H s K : wfH H → reach H s K → eqv s (spec H K) ∧ valid H K.
   Proof.
-    intros HH. induction 1 as [|s K i o Hr [IH1 IH2] Ho Ha|s1 K1 s2 K2 Hr1 [IH1 IHv1] Hr2 [IH2 IHv2]].
+    intros HH. induction 1 as [|s K i o Hr [IH1 IH2] Ho Ha|s1 K1 s2 K2 Hm Hr1 [IH1 IHv1] Hr2 [IH2 IHv2]].
     - split; [apply spec_init|apply valid_empty].
     - split; [|by apply valid_step].
       etrans; [by apply apply_proper|]. by apply L1.
@@ -107,30 +109,30 @@ Section system.
 
   (** C03: merging two replicas = having learned the union of their ops *)
   Corollary merge_is_union H s1 K1 s2 K2 s K :
-    wfH H → reach H s1 K1 → reach H s2 K2 → reach H s K → K = K1 ∪ K2 → eqv (merge s1 s2) s.
+    mergeable → wfH H → reach H s1 K1 → reach H s2 K2 → reach H s K → K = K1 ∪ K2 → eqv (merge s1 s2) s.
   Proof.
-    intros HH H1 H2 H3 ->. eapply converge; [done| |exact H3]. by apply reach_merge.
+    intros Hm HH H1 H2 H3 ->. eapply converge; [done| |exact H3]. by apply reach_merge.
   Qed.
 
   (** C02: merge is commutative, associative, idempotent on reachable states *)
   Corollary merge_comm H s1 K1 s2 K2 :
-    wfH H → reach H s1 K1 → reach H s2 K2 → eqv (merge s1 s2) (merge s2 s1).
+    mergeable → wfH H → reach H s1 K1 → reach H s2 K2 → eqv (merge s1 s2) (merge s2 s1).
   Proof.
-    intros HH H1 H2. eapply converge; [done|by apply reach_merge|].
+    intros Hm HH H1 H2. eapply converge; [done|by apply reach_merge|].
     rewrite (comm_L (∪) K1 K2). by apply reach_merge.
   Qed.
   Corollary merge_assoc H s1 K1 s2 K2 s3 K3 :
-    wfH H → reach H s1 K1 → reach H s2 K2 → reach H s3 K3 →
+    mergeable → wfH H → reach H s1 K1 → reach H s2 K2 → reach H s3 K3 →
     eqv (merge (merge s1 s2) s3) (merge s1 (merge s2 s3)).
   Proof.
-    intros HH H1 H2 H3. eapply converge; [done|by repeat apply reach_merge|].
+    intros Hm HH H1 H2 H3. eapply converge; [done|by repeat apply reach_merge|].
     rewrite <- (assoc_L (∪) K1 K2 K3). by repeat apply reach_merge.
   Qed.
-  Corollary merge_idem H s K : wfH H → reach H s K → eqv (merge s s) s.
+  Corollary merge_idem H s K : mergeable → wfH H → reach H s K → eqv (merge s s) s.
   Proof.
-    intros HH H1. eapply converge; [done| |exact H1].
-    assert (reach H (merge s s) (K ∪ K)) as Hm by (by apply reach_merge).
-    by rewrite (idemp_L (∪) K) in Hm.
+    intros Hm HH H1. eapply converge; [done| |exact H1].
+    assert (reach H (merge s s) (K ∪ K)) as Hr by (by apply reach_merge).
+    by rewrite (idemp_L (∪) K) in Hr.
   Qed.
 
   (** C09: re-applying a known op, or merging a state whose knowledge is
@@ -143,11 +145,11 @@ Section system.
     replace (K ∪ {[i]}) with K in Hm by set_solver. done.
   Qed.
   Corollary stale_merge H s1 K1 s2 K2 :
-    wfH H → reach H s1 K1 → reach H s2 K2 → K2 ⊆ K1 → eqv (merge s1 s2) s1.
+    mergeable → wfH H → reach H s1 K1 → reach H s2 K2 → K2 ⊆ K1 → eqv (merge s1 s2) s1.
   Proof.
-    intros HH H1 H2 Hsub. eapply converge; [done| |exact H1].
-    assert (reach H (merge s1 s2) (K1 ∪ K2)) as Hm by (by apply reach_merge).
-    replace (K1 ∪ K2) with K1 in Hm by set_solver. done.
+    intros Hm HH H1 H2 Hsub. eapply converge; [done| |exact H1].
+    assert (reach H (merge s1 s2) (K1 ∪ K2)) as Hr by (by apply reach_merge).
+    replace (K1 ∪ K2) with K1 in Hr by set_solver. done.
   Qed.
 End system.
 
@@ -155,12 +157,13 @@ End system.
     one run are comparable. *)
 Section mono.
   Context {St Op : Type} (init : St) (apply : St → Op → St) (merge : St → St → St).
-  Context (adm : adm_t Op).
+  Context (adm : adm_t Op) (mergeable : Prop).
   Hypothesis adm_mono : ∀ H H' K i, adm H K i → adm (H ++ H') K i.
 
-  Lemma reach_mono H H' s K : reach init apply merge adm H s K → reach init apply merge adm (H ++ H') s K.
+  Lemma reach_mono H H' s K :
+    reach init apply merge adm mergeable H s K → reach init apply merge adm mergeable (H ++ H') s K.
   Proof.
-    induction 1 as [|s K i o Hr IH Ho Ha|s1 K1 s2 K2 Hr1 IH1 Hr2 IH2].
+    induction 1 as [|s K i o Hr IH Ho Ha|s1 K1 s2 K2 Hm Hr1 IH1 Hr2 IH2].
     - constructor.
     - eapply reach_apply; [done| |by apply adm_mono]. by apply lookup_app_l_Some.
     - by apply reach_merge.
